@@ -790,6 +790,7 @@ pub fn c11(tier: Tier, _seed: u64) -> Prop {
         ],
         units: elf_units("C11", tier),
         extra: crate::hv::shard::no_extra(),
+        profiles: vec!["release"],
     }
 }
 
@@ -804,6 +805,7 @@ pub fn c12(tier: Tier, _seed: u64) -> Prop {
         ],
         units: elf_units("C12", tier),
         extra: crate::hv::shard::no_extra(),
+        profiles: vec!["release"],
     }
 }
 
